@@ -12,7 +12,7 @@ Section MathProofs.
 
   (* what one child of a Math node contributes to every layout *)
   Inductive math_child : bundle -> list atom -> Prop :=
-  | mc_expr b c x : is_expr (bt b) = true -> child_atoms b (RExpr c) x -> math_child b x
+  | mc_expr b c x : is_expr (bt b) = true -> child_atoms b (RExprEmb c) x -> math_child b x
   | mc_space b : is_expr (bt b) = false -> kind_eqb (bk b) KSpace = true ->
                  math_child b [if has_lb (tx b) then ALine else AText [SP]]
   | mc_hash b : is_expr (bt b) = false -> kind_eqb (bk b) KSpace = false -> kind_eqb (bk b) KHash = true ->
@@ -32,7 +32,7 @@ Section MathProofs.
     (fun (st : doc * bool) (node : bundle) =>
        let '(d, at_hash) := st in
        if is_expr (bt node) then
-         x <- call node (RExpr (with_mode_if c LCode at_hash)) ;; ret (append d x, false)
+         x <- call node (RExprEmb (with_mode_if c LCode at_hash)) ;; ret (append d x, false)
        else if kind_eqb (bk node) KSpace then ret (append d (convert_space_text (tx node)), false)
        else if kind_eqb (bk node) KHash then ret (append d (text swidth [35]), true)
        else ret (append d (convert_trivia swidth (bt node)), false)).
